@@ -38,6 +38,7 @@ type upstreamConn struct {
 	opName    *string
 	emitted   []int // event sequence numbers emitted as data
 	errsSent  []string
+	nEvents   int // events emitted on this connection so far
 	done      bool
 	sawEOF    bool
 	script    *upScript
@@ -213,8 +214,12 @@ func (se *subEnv) runUpstream(uc *upstreamConn) {
 		var err error
 		switch ev.kind {
 		case "event":
+			// events are numbered per upstream connection: two connections that serve the same
+			// subscription text emit the same payloads (which of them belongs to which client
+			// subscription then does not matter to the oracle)
 			se.eventSeq++
-			seq := se.eventSeq
+			uc.nEvents++
+			seq := uc.nEvents
 			if se.sameEvents {
 				seq = 1
 			}
@@ -230,19 +235,20 @@ func (se *subEnv) runUpstream(uc *upstreamConn) {
 			// partial data together with errors in one data frame
 			se.fire("upstream.event-with-errors")
 			se.eventSeq++
-			ex.EventSeq = se.eventSeq
+			uc.nEvents++
+			ex.EventSeq = uc.nEvents
 			resp, _, errs := ex.Run(uc.query, uc.opName, uc.vars)
 			if errs != nil {
 				err = wsutil.WriteServerText(conn, wsMsg("error", "1", []interface{}{map[string]interface{}{"message": "invalid subscription: " + errs.Error()}}))
 				break
 			}
-			msg := fmt.Sprintf("upstream-partial-%d-%d", uc.n, len(uc.errsSent))
+			msg := fmt.Sprintf("upstream-partial-%d", len(uc.errsSent))
 			uc.errsSent = append(uc.errsSent, msg)
 			err = wsutil.WriteServerText(conn, wsMsg("data", "1", map[string]interface{}{"data": resp.Data, "errors": []interface{}{
 				map[string]interface{}{"message": msg, "path": []interface{}{"zzRoot", 0, "zz"}, "extensions": map[string]interface{}{"code": "PARTIAL"}}}}))
 		case "error":
 			se.fire("upstream.error-frame")
-			msg := fmt.Sprintf("upstream-error-%d-%d", uc.n, len(uc.errsSent))
+			msg := fmt.Sprintf("upstream-error-%d", len(uc.errsSent))
 			uc.errsSent = append(uc.errsSent, msg)
 			err = wsutil.WriteServerText(conn, wsMsg("error", "1", []interface{}{map[string]interface{}{"message": msg, "extensions": map[string]interface{}{"code": "UP"}}}))
 		case "complete":
